@@ -52,18 +52,20 @@ def asksSequencer (c : Cfg) (n : Node) : Bool :=
   !Producer.pendingRefuses c.p n.prod && (Producer.prevInfo c.p n.prod.store).isSome &&
   (n.prod.store.getBlock (n.prod.store.height + 1)).isNone
 
-/-- one production step with the real single sequencer behind it -/
-def produce (c : Cfg) (n : Node) : Node × List FW × Producer.Outcome :=
+/-- one production step with the real single sequencer behind it; `ex` = what the execution layer answers to
+`ExecuteTxs` during this step (`.fail`: the step stops there with an error; a block freshly built from the batch has
+been saved early by then and is reused by the next step) -/
+def produce (c : Cfg) (n : Node) (ex : Producer.ExecResp := .ok) : Node × List FW × Producer.Outcome :=
   let ts := c.p.genesisTime + (n.tick + 1) * 1000
   if asksSequencer c n then
     let (q', out) := Queue.getNext key c.qc n.q c.qc.id
     let (txs, ws0) : List Bytes × List FW := match out with
       | .batch b => (b, [FW.qdel b])
       | _ => ([], [])
-    let (p', ws, o) := Producer.publish c.p n.prod (.batch txs ts []) .ok
+    let (p', ws, o) := Producer.publish c.p n.prod (.batch txs ts []) ex
     ({ n with prod := p', q := q', tick := n.tick + 1 }, ws0 ++ ws.map FW.st, o)
   else
-    let (p', ws, o) := Producer.publish c.p n.prod .absent .ok
+    let (p', ws, o) := Producer.publish c.p n.prod .absent ex
     ({ n with prod := p', tick := n.tick + 1 }, ws.map FW.st, o)
 
 /-- durable image -/
@@ -98,6 +100,7 @@ inductive Op
   | mempool (txs : List Bytes)     -- what the execution layer's `GetTxs` answers from now on
   | reap                           -- one `Reaper.SubmitTxs`
   | produce                        -- one `publishBlock`
+  | produceFail                    -- one `publishBlock` during which `ExecuteTxs` fails (or the node dies in it, when a `restart` follows)
   | restart
   | crash (k : Nat)
   deriving Repr, Inhabited
@@ -123,6 +126,7 @@ def opStep (c : Cfg) (s : RunSt) : Op → Option RunSt
   | .mempool txs => some { s with mempool := txs }
   | .reap => some { s with n := (reap c s.n s.mempool).1, before := diskOf s.n, ws := (reap c s.n s.mempool).2 }
   | .produce => some { s with n := (produce c s.n).1, before := diskOf s.n, ws := (produce c s.n).2.1 }
+  | .produceFail => some { s with n := (produce c s.n .fail).1, before := diskOf s.n, ws := (produce c s.n .fail).2.1 }
   | .restart => recover c s s.ws.length
   | .crash k => recover c s k
 
